@@ -444,7 +444,12 @@ def run_ops(args: dict) -> dict:
     clock = install_seams(files)
     clock.schedule = list(args.get("clock") or [])
     out = []
+    texts = {f["name"]: f["text"] for f in args["pool"]}
     for op in args["ops"]:
+        if op.get("content"):
+            # the file system changes between calls: this name now holds another pool file's text
+            files[SIM_PREFIX + op["file"]] = texts[op["content"]]
+            _seams["files"][SIM_PREFIX + op["file"]] = texts[op["content"]]
         out.append(json.loads(json.dumps(do_op(op, files))))  # plain JSON types only (lark Tokens are str subclasses)
     return {"obs": out, "clock_reads": clock.reads, "clock_jumps": clock.jumps, "opens": _seams["opens"]}
 
@@ -510,8 +515,8 @@ def run_c19(args: dict) -> dict:
             for h in present[1:]:
                 stats["replicas_compared"] += 1
                 a, b = got[base], got[h]
-                if clock.jumps == 0:
-                    same = a == b
+                if clock.jumps == 0 and clock.reads >= stats["conversions"]:
+                    same = a == b  # the simulated clock stood still and every conversion read it: even the timestamps agree
                 else:
                     same = strip_timestamp(a) == strip_timestamp(b) and a.count("\n") == b.count("\n")
                 if not same:
@@ -595,7 +600,7 @@ def op_kind(op: dict) -> str:
 
 
 def op_key(op: dict) -> str:
-    return op_kind(op) + "@" + op["file"]
+    return op_kind(op) + "@" + op["file"] + ("<-" + op["content"] if op.get("content") else "")
 
 
 def gen_history(rng: random.Random, pool: list, cfg: dict | None = None) -> dict:
@@ -622,9 +627,20 @@ def gen_history(rng: random.Random, pool: list, cfg: dict | None = None) -> dict
             op = {"op": "read", "cls": cls, "file": pool[fi]["name"], "by": rng.choice(["file", "text"])}
         last_cls = cls
         ops.append(op)
+    if rng.random() < cfg.get("p_shared_name", 0.3):
+        # one path, rewritten between calls: every call names the same file, whose content is another pool file each time
+        for op in ops:
+            op["content"] = op["file"]
+            op["file"] = "model.opts"
     r = rng.random()
     clock = [] if r < 0.6 else [rng.choice([0, 2.5, -3600.0, 86400.0]) for _ in range(n)]
     return {"ops": ops, "clock": clock}
+
+
+def strip_obs_timestamp(o: dict) -> dict:
+    if o.get("kind") != "text":
+        return o
+    return {**o, "returned": strip_timestamp(o["returned"]) if o.get("returned") is not None else None, "stdout": strip_timestamp(o.get("stdout") or "")}
 
 
 def compare_obs(a: dict, b: dict):
@@ -645,7 +661,10 @@ def run_history_case(case: dict) -> dict:
     if case.get("mode") == "twice":
         a = fork_call(run_ops, {"pool": pool, "ops": ops, "clock": case.get("clock")}, limit_s=case.get("limit_s", 900))
         b = fork_call(run_ops, {"pool": pool, "ops": ops, "clock": case.get("clock")}, limit_s=case.get("limit_s", 900))
+        seam = a["clock_reads"] >= sum(1 for o in ops if o["op"] == "convert")
         for i, (x, y) in enumerate(zip(a["obs"], b["obs"])):
+            if not seam:  # the converters did not read the simulated clock: timestamps are real time, outside the property
+                x, y = strip_obs_timestamp(x), strip_obs_timestamp(y)
             if x != y:
                 out.update(verdict="violation", signature={"check": "exact_reproducibility"}, detail={"op_index": i, "op": ops[i], "diff": first_diff(x, y)})
                 break
@@ -670,7 +689,7 @@ def c20_candidates(case: dict):
         yield {**case, "ops": ops[:-1], "clock": []}
     if case.get("clock"):
         yield {**case, "clock": []}
-    used = {o["file"] for o in ops}
+    used = {o["file"] for o in ops} | {o["content"] for o in ops if o.get("content")}
     pool = case["pool"]
     if any(f["name"] not in used for f in pool):
         yield {**case, "pool": [f for f in pool if f["name"] in used]}
